@@ -142,6 +142,33 @@ def make_specs():
                          ret=["u64", "string"][variant], shape=["a1", "a3"][variant], receiver="free", gates=1 if flavour == "async" else 0)
                 s["tags"], s["events"], s["deps"] = ([], [], [])
                 specs.append(s)
+    # "effectively unbounded" limits and ttl = 0 (every entry is expired at once: never served)
+    n = 0
+    for flavour in ["global", "thread", "async"]:
+        for pol in POLICIES:
+            for variant in (0, 1, 2):
+                fid += 1
+                n += 1
+                limit, ttl = [(18446744073709551615, None), (1000000000000000000, [None, 2][n % 2]), ([None, 2][n % 2], 0)][variant]
+                s = dict(fid=fid, flavour=flavour, policy=pol, policy_written=pol, limit=limit, ttl=ttl,
+                         mem=(MEMS[n % len(MEMS)] if n % 3 == 0 else None), fw=("0.3" if pol == "tlru" and n % 2 else None),
+                         scope_written={"global": None, "thread": "thread", "async": None}[flavour], name=None, cache_if=False, invalidate_on=False,
+                         ret=["u64", "string", "rec"][variant], shape=["a1", "a3", "a2"][variant], receiver="free", gates=1 if flavour == "async" else 0)
+                s["tags"], s["events"], s["deps"] = ([], [], [])
+                specs.append(s)
+    # labels that are not plain lower-case identifiers: a request matches a declaration only if it
+    # is spelled exactly like it (C12), and the lower-cased / trimmed spelling matches nothing (C13)
+    labels = [(["UserData", " padded "], ["E_Upper"], ["Dep.X"]), (["userdata"], ["e_upper"], ["dep.x"]), (["UserData"], [], ["Dep.X", "padded"]), ([], ["E_Upper", "e_upper"], [])]
+    n = 0
+    for flavour in ["global", "async"]:
+        for (tg, ev, dp) in labels:
+            fid += 1
+            n += 1
+            s = dict(fid=fid, flavour=flavour, policy=POLICIES[n % 6], policy_written=POLICIES[n % 6], limit=[None, 3][n % 2], ttl=None, mem=None, fw=None,
+                     scope_written=None, name=(f"Named_{fid}" if n % 3 == 0 else None), cache_if=False, invalidate_on=False,
+                     ret="u64", shape="a1", receiver="free", gates=1 if flavour == "async" else 0)
+            s["tags"], s["events"], s["deps"] = (tg, ev, dp)
+            specs.append(s)
     return specs
 
 
@@ -219,7 +246,11 @@ def emit(specs):
         full_params = ", ".join([p for p in [self_param, params] if p])
         asyncness = "async " if is_async else ""
         gates = "".join("        vhooks::gate().await;\n" for _ in range(s["gates"]))
-        body_dec = f"        let x = vhooks::enter({fid}, {dig_expr});\n{gates}        {rt['mk']}\n"
+        # a third of the bodies leave through an explicit `return` for half of their results (the
+        # store has to happen whichever way the body is left)
+        early = (fid * 2654435761 >> 7) % 3 == 0
+        early_txt = f"        if x.value % 4 < 2 {{\n            return {rt['mk']};\n        }}\n" if early else ""
+        body_dec = f"        let x = vhooks::enter({fid}, {dig_expr});\n{gates}{early_txt}        {rt['mk']}\n"
         body_twin = f"        let x = vhooks::twin({fid}, {dig_expr});\n        {rt['mk']}\n"
         fname, tname = f"f{fid}", f"t{fid}"
         attr_line = f"#[{macro}({attrs})]" if attrs else f"#[{macro}]"
